@@ -83,6 +83,7 @@ int main(int argc, char **argv) {
 	scname = vh_arg(argc, argv, "--scenario", "list");
 	for (i = 0; i < NSC; i++) if (!strcmp(SC[i].name, scname)) fn = SC[i].fn;
 	if (!fn) VH_DIE("unknown scenario %s", scname);
+	(void)vh_private_net();
 	prepare_files();
 	vt = va_vtable();
 	p_libsys_init_full(&vt);
